@@ -63,12 +63,16 @@ FileOK == (IsNoFrame(data) \/ WellFormed(data)) /\ Len(rolls) = Len(w.lives)
 \* what is on file after a load = one load from scratch now, from the first row on file on - as long as the caller
 \* loads at least every day (`daily`): rows after a load's cutoff are provisional (a contract counted as live may end
 \* before `now`), and a later load re-rolls only the rows after ITS cutoff
-SavedIsFresh == (JustLoaded /\ daily) =>
+\* - and in a world where the contracts stop trading in the order of the chain (Orderly): skipping a rolled-off contract
+\* that sits AFTER the front contract would change which contract is "the next one" in the columns of a curve.
+Orderly == \A i \in 1..Len(w.lives), j \in 1..Len(w.lives) :
+              (i < j /\ Life(i)[2] >= Life(i)[1] /\ Life(j)[2] >= Life(j)[1]) => Life(i)[2] <= Life(j)[2]
+SavedIsFresh == (JustLoaded /\ daily /\ Orderly) =>
     LET F == Fresh(now).data IN
     IF IsNoFrame(data) \/ NRows(data) = 0 THEN IsNoFrame(F) \/ NRows(F) = 0
     ELSE data = RowsFrom(F, FirstT(data))
 \* ... and the chain on file is the chain a load from scratch returns, wherever the law pins it
-ChainIsFresh == (JustLoaded /\ daily) => LET f == Fresh(now) IN \A i \in out.pinned \cap f.pinned : rolls[i] = f.rolls[i]
+ChainIsFresh == (JustLoaded /\ daily /\ Orderly) => LET f == Fresh(now) IN \A i \in out.pinned \cap f.pinned : rolls[i] = f.rolls[i]
 \* a roll date on file that the caller did not write himself is the true last day of the contract
 RollsTrue == \A i \in 1..Len(rolls) : (rolls[i] # 0 /\ w.rolls0[i] = 0 /\ Life(i)[2] >= Life(i)[1]) => rolls[i] = Life(i)[2]
 \* roll dates on file never change
